@@ -251,6 +251,8 @@ struct BodyV<'a> {
     edits: Vec<Edit>,
     seq: usize,
     loops: Vec<LoopInfo>,
+    lets_k: Vec<(String, String, usize)>, // (name, binding kind: let | cond | arm | other, byte offset)
+    pat_kind: String,
     closures: Vec<(usize, usize, usize, usize, Vec<String>, bool)>, // (or1.start, body.start, body.end, head_end, param names, body_is_block)
     stmt_stack: Vec<(usize, usize)>,
     calls: Vec<(String, (usize, usize))>,
@@ -447,9 +449,36 @@ impl<'a, 'ast> Visit<'ast> for BodyV<'a> {
         let n = p.ident.to_string();
         // `None` and other unit variants parse as identifier patterns; bindings are lower-case
         if n.chars().next().map(|c| c.is_lowercase() || c == '_').unwrap_or(false) {
-            self.lets.push(n);
+            self.lets.push(n.clone());
+            self.lets_k.push((n, self.pat_kind.clone(), br(p.ident.span()).0));
         }
         syn::visit::visit_pat_ident(self, p);
+    }
+    fn visit_local(&mut self, l: &'ast syn::Local) {
+        let old = std::mem::replace(&mut self.pat_kind, "let".to_string());
+        self.visit_pat(&l.pat);
+        self.pat_kind = old;
+        if let Some(init) = &l.init {
+            self.visit_expr(&init.expr);
+            if let Some((_, e)) = &init.diverge {
+                self.visit_expr(e);
+            }
+        }
+    }
+    fn visit_expr_let(&mut self, l: &'ast syn::ExprLet) {
+        let old = std::mem::replace(&mut self.pat_kind, "cond".to_string());
+        self.visit_pat(&l.pat);
+        self.pat_kind = old;
+        self.visit_expr(&l.expr);
+    }
+    fn visit_arm(&mut self, a: &'ast syn::Arm) {
+        let old = std::mem::replace(&mut self.pat_kind, "arm".to_string());
+        self.visit_pat(&a.pat);
+        self.pat_kind = old;
+        if let Some((_, g)) = &a.guard {
+            self.visit_expr(g);
+        }
+        self.visit_expr(&a.body);
     }
     fn visit_expr_path(&mut self, p: &'ast syn::ExprPath) {
         if p.path.segments.len() == 1 {
@@ -572,7 +601,7 @@ fn gen_fn(ctx: &mut Ctx, fs_: &FnSpec) -> R<()> {
         _ => return fail(format!("{} is not a function", fs_.path)),
     };
     let _ = vis_start;
-    let mut v = BodyV { src: text, edits: vec![], seq: 0, loops: vec![], closures: vec![], stmt_stack: vec![], calls: vec![], breaks: vec![], continues: vec![], returns: vec![], fresh: vec![], strlits: vec![], errs: vec![], lets: vec![], upper_idents: vec![] };
+    let mut v = BodyV { src: text, edits: vec![], seq: 0, loops: vec![], closures: vec![], stmt_stack: vec![], calls: vec![], breaks: vec![], continues: vec![], returns: vec![], fresh: vec![], strlits: vec![], errs: vec![], lets: vec![], lets_k: vec![], pat_kind: "other".to_string(), upper_idents: vec![] };
     attr_edits(attrs, &mut v.edits, &mut v.seq, text);
     if fs_.opts.iter().any(|o| o == "private") {
         // E14: `pub` dropped so that the contract may mention unit-private specification functions
@@ -627,17 +656,71 @@ fn gen_fn(ctx: &mut Ctx, fs_: &FnSpec) -> R<()> {
             }
         }
     }
+    // pattern-bound identifiers: the contract's canonical names (`locals [kind:]name …`, in source order of the pinned tree)
+    // are ALIGNED with the identifiers bound in this body (same binding kind required when the contract states one; equal
+    // names preferred; identifiers the contract does not know -- new locals -- are skipped).  A pure rename of locals, or a
+    // new `let`, therefore keeps the contract applicable.  A clause is rewritten with the bindings in scope AT ITS ANCHOR:
+    // canonical name n -> the last aligned identifier for n bound before that point.
+    let mut aligned: Vec<(String, String, usize)> = vec![]; // (canonical, source name, source offset)
     if let Some(ls) = &fs_.locals {
-        // pattern-bound identifiers, positional: a pure rename of locals keeps the contract applicable
-        if ls.len() == v.lets.len() {
-            for (a, b) in ls.iter().zip(v.lets.iter()) {
-                if a != b && !ren.iter().any(|(x, _)| x == a) {
-                    ren.push((a.clone(), b.clone()));
+        let canon: Vec<(Option<String>, String)> = ls.iter().map(|x| match x.split_once(':') { Some((k, n)) => (Some(k.to_string()), n.to_string()), None => (None, x.clone()) }).collect();
+        let src = &v.lets_k;
+        let (m, n) = (canon.len(), src.len());
+        let score = |i: usize, j: usize| -> i64 {
+            let kind_ok = canon[i].0.as_ref().map(|k| *k == src[j].1).unwrap_or(true);
+            if canon[i].1 == src[j].0 {
+                if kind_ok { 4 } else { 3 }
+            } else if kind_ok {
+                1
+            } else {
+                -1
+            }
+        };
+        let mut dp = vec![vec![0i64; n + 1]; m + 1];
+        for i in (0..m).rev() {
+            for j in (0..n).rev() {
+                let mut best = dp[i + 1][j].max(dp[i][j + 1]);
+                let sc = score(i, j);
+                if sc > 0 {
+                    best = best.max(sc + dp[i + 1][j + 1]);
                 }
+                dp[i][j] = best;
+            }
+        }
+        let (mut i, mut j) = (0, 0);
+        while i < m && j < n {
+            let sc = score(i, j);
+            if sc > 0 && dp[i][j] == sc + dp[i + 1][j + 1] {
+                aligned.push((canon[i].1.clone(), src[j].0.clone(), src[j].2));
+                i += 1;
+                j += 1;
+            } else if dp[i][j] == dp[i][j + 1] {
+                j += 1;
+            } else {
+                i += 1;
             }
         }
     }
-    let fix = |t: &str| subst_idents(t, &ren);
+    let fix_at = |t: &str, pos: usize| -> String {
+        let mut map = ren.clone();
+        let mut names: Vec<&String> = aligned.iter().map(|a| &a.0).collect();
+        names.sort();
+        names.dedup();
+        for nme in names {
+            if map.iter().any(|(x, _)| x == nme) {
+                continue;
+            }
+            let cands: Vec<&(String, String, usize)> = aligned.iter().filter(|a| &a.0 == nme).collect();
+            let pick = cands.iter().filter(|a| a.2 < pos).last().or(cands.first());
+            if let Some(a) = pick {
+                if a.1 != *nme {
+                    map.push((nme.clone(), a.1.clone()));
+                }
+            }
+        }
+        subst_idents(t, &map)
+    };
+    let fix = |t: &str| fix_at(t, usize::MAX);
 
     // --- signature edits
     let hoist = fs_.opts.iter().any(|o| o == "hoist_txn");
@@ -795,7 +878,7 @@ fn gen_fn(ctx: &mut Ctx, fs_: &FnSpec) -> R<()> {
         let base_idx = all_clauses.len();
         for c in cls {
             let mut c2 = c.clone();
-            c2.text = fix(&c.text);
+            c2.text = fix_at(&c.text, bo);
             c2.place = format!("loop {k}");
             all_clauses.push(c2);
         }
@@ -836,7 +919,7 @@ fn gen_fn(ctx: &mut Ctx, fs_: &FnSpec) -> R<()> {
         let base_idx = all_clauses.len();
         for c in fs_.closures.get(k).map(|v| v.as_slice()).unwrap_or(&[]) {
             let mut c2 = c.clone();
-            c2.text = fix(&c.text);
+            c2.text = fix_at(&c.text, o1);
             c2.place = format!("closure {k}");
             all_clauses.push(c2);
         }
@@ -982,7 +1065,8 @@ fn gen_fn(ctx: &mut Ctx, fs_: &FnSpec) -> R<()> {
             _ => return fail(format!("bad proof anchor `{anchor}`")),
         };
         let mut c2 = c.clone();
-        c2.text = fix(&c.text);
+        // before_* anchors sit at the start of their statement: bindings of that statement are not yet in scope
+        c2.text = fix_at(&c.text, if parts[0].starts_with("after_") { pos + 1 } else { pos });
         c2.place = anchor.clone();
         let idx = all_clauses.len();
         let body = c2.text.trim().to_string();
@@ -1025,6 +1109,7 @@ fn gen_fn(ctx: &mut Ctx, fs_: &FnSpec) -> R<()> {
         }
     }
     let lets_dbg = v.lets.clone();
+    let lets_k_dbg: Vec<String> = v.lets_k.iter().map(|(n, k, _)| format!("{k}:{n}")).collect();
     let n_closures = v.closures.len();
     let mut edits = v.edits;
     ctx.out.push_str("    ");
@@ -1054,7 +1139,7 @@ fn gen_fn(ctx: &mut Ctx, fs_: &FnSpec) -> R<()> {
         "kind": "fn", "path": fs_.path, "file": fs_.file, "src": [span.0, span.1],
         "src_line": line_of(text, span.0), "gen": [gen_base, ctx.out.len()],
         "segments": segs, "clauses": cj, "rules": rules, "twin": twin_range,
-        "n_loops": fs_.loops.len(), "lets": lets_dbg,
+        "n_loops": fs_.loops.len(), "lets": lets_dbg, "lets_k": lets_k_dbg,
         "closures_total": n_closures, "closures_with_contract": fs_.closure_heads.len(),
     }));
     Ok(())
